@@ -28,6 +28,9 @@ type MemStore struct {
 // ArmCrash makes the store lose every durable write event after the next n ones.
 func (m *MemStore) ArmCrash(n int) { m.armed, m.CrashAfter, m.events = true, n, 0 }
 
+// Events reports how many durable write events the store has been asked to perform since it was armed.
+func (m *MemStore) Events() int { return m.events }
+
 // Disarm ends the crash window (the process has restarted).
 func (m *MemStore) Disarm() { m.armed = false }
 
